@@ -109,7 +109,9 @@ func vC14HeaderNoValue(key string) []byte {
 }
 
 // vC14ValidMessage returns exactly n bytes that are a protobuf client.Message.
-// shape "hdrNoValue" includes a header entry without a value when there is room.
+// shape "hdrNoValue" includes a header entry without a value when there is room; shape "hdrReserved" a
+// header entry named like one of the two headers the server owns ("subject", "reply": the NATS subject and
+// reply subject the payload arrived with, which the envelope must not be able to dictate).
 func vC14ValidMessage(n int, shape string, rng *rand.Rand) []byte {
 	if n == 0 {
 		return []byte{}
@@ -120,6 +122,13 @@ func vC14ValidMessage(n int, shape string, rng *rand.Rand) []byte {
 	for try := 0; try < 12; try++ {
 		m := &client.Message{}
 		budget := n / 2
+		var reserved []byte
+		if shape == "hdrReserved" && n >= 14 {
+			key := []string{"subject", "reply"}[rng.Intn(2)]
+			entry := append(append([]byte{0x0A, byte(len(key))}, key...), 0x12, 0x01, 'x')
+			reserved = append([]byte{0x4A, byte(len(entry))}, entry...)
+			budget = (n - len(reserved)) / 2
+		}
 		if rng.Intn(3) > 0 {
 			m.Value = vC14Bytes(rng, budget)
 		}
@@ -145,6 +154,7 @@ func vC14ValidMessage(n int, shape string, rng *rand.Rand) []byte {
 		if shape == "hdrNoValue" {
 			b = append(b, vC14HeaderNoValue("nv")...)
 		}
+		b = append(b, reserved...)
 		q := n - len(b)
 		if q == 0 || (q >= 2 && q-2 <= 127) {
 			return append(b, vC14Pad(q, rng)...)
@@ -259,7 +269,8 @@ type vC14Fields struct {
 	headers          map[string][]byte
 	ackInbox, corrID string
 	ackPolicy        client.AckPolicy
-	full             bool // ackInbox, corrID, ackPolicy are available (not persisted in the log)
+	full             bool   // ackInbox, corrID, ackPolicy are available (not persisted in the log)
+	natsSubject      string // what the server recorded as the NATS subject the payload arrived on
 }
 
 func vC14FromCommitlog(m *commitlog.Message) vC14Fields {
@@ -268,11 +279,12 @@ func vC14FromCommitlog(m *commitlog.Message) vC14Fields {
 }
 
 func vC14FromSerialized(m commitlog.SerializedMessage) vC14Fields {
-	return vC14Fields{key: m.Key(), value: m.Value(), headers: m.Headers()}
+	h := m.Headers()
+	return vC14Fields{key: m.Key(), value: m.Value(), headers: h, natsSubject: string(h["subject"])}
 }
 
 func vC14FromClient(m *client.Message) vC14Fields {
-	return vC14Fields{key: m.Key, value: m.Value, headers: m.Headers}
+	return vC14Fields{key: m.Key, value: m.Value, headers: m.Headers, natsSubject: m.Subject}
 }
 
 func vC14UserHeaders(h map[string][]byte) map[string]string {
@@ -354,10 +366,7 @@ func TestVerifC14Nats(t *testing.T) {
 	tw.Emit(map[string]interface{}{"a": "Open", "t": 0})
 	run := func(k vC14Key, hl int, pbOK bool, fill int) vC14Rec {
 		rng := vC14Rng(cfg.Seed, k, hl, pbOK, fill)
-		shape := "plain"
-		if fill%2 == 1 {
-			shape = "hdrNoValue"
-		}
+		shape := []string{"plain", "hdrNoValue", "hdrReserved"}[fill%3]
 		return vC14Rec{HL: hl, PbOK: pbOK, Fill: fill, St: []vC14St{vC14Nats(vC14Concretise(k, hl, pbOK, shape, rng))}}
 	}
 	tid := 0
@@ -475,10 +484,13 @@ type vC14Pub struct {
 // publish at the same position if it explains the message, else any other
 // publish that explains it; a message nothing explains keeps the position's id
 // with same=false (or k="bad" when there is no such publish).
-func vC14Project(msgs []vC14Fields, pubs []vC14Pub) ([]vC14Entry, bool) {
+func vC14Project(msgs []vC14Fields, pubs []vC14Pub, natsSubject string) ([]vC14Entry, bool) {
 	out := []vC14Entry{}
 	allSame := true
 	for j, f := range msgs {
+		if f.natsSubject != natsSubject {
+			allSame = false // the server-owned subject header does not name the subject the bytes arrived on
+		}
 		e := vC14Entry{K: "bad", ID: 0}
 		found := false
 		if j < len(pubs) {
@@ -608,7 +620,7 @@ func TestVerifC14Server(t *testing.T) {
 				if err != nil {
 					t.Fatalf("INCONCLUSIVE: read log: %v", err)
 				}
-				stored, same := vC14Project(msgs, pubs)
+				stored, same := vC14Project(msgs, pubs, stream)
 				k2 := "none"
 				if len(stored) > 0 {
 					k2 = stored[len(stored)-1].K
@@ -641,7 +653,7 @@ func TestVerifC14Server(t *testing.T) {
 				if err != nil {
 					t.Fatalf("INCONCLUSIVE: read log: %v", err)
 				}
-				stored, _ := vC14Project(msgs, pubs)
+				stored, _ := vC14Project(msgs, pubs, stream)
 				emit(map[string]interface{}{"a": "Internal", "t": b.ID, "args": args,
 					"st":  map[string]interface{}{"up": srv.IsRunning(), "stored": stored},
 					"obs": map[string]interface{}{"a": "Internal", "k": "sent", "same": true}})
@@ -672,9 +684,9 @@ func TestVerifC14Server(t *testing.T) {
 					got = append(got, vC14FromClient(m))
 				}
 				cancel()
-				delivered, same := vC14Project(got, pubs)
+				delivered, same := vC14Project(got, pubs, stream)
 				msgs, _ := vC14ReadLog(part)
-				stored, _ := vC14Project(msgs, pubs)
+				stored, _ := vC14Project(msgs, pubs, stream)
 				emit(map[string]interface{}{"a": "ReadBack", "t": b.ID, "args": map[string]interface{}{},
 					"st":  map[string]interface{}{"up": srv.IsRunning(), "stored": stored},
 					"obs": map[string]interface{}{"a": "ReadBack", "k": kind, "same": same, "got": delivered}})
